@@ -29,6 +29,11 @@ Oracle per sub-case (statement of C19):
             _update_best_results / "best trials found")
   decode    the converter decodes every returned candidate to a member of the
             search space (independent membership oracle of harness/spaces.py)
+  trials    vb.best_candidates_to_trials(result, converter): count*n_parallel
+            trials, every consecutive block of n_parallel trials is one
+            returned candidate set (parameters = the harness's own decoding of
+            features[ind, :]) and carries rewards[ind] as acquisition value in
+            the final measurement and the devinfo metadata
   any exception from the optimiser call is a violation.
 
 Every score function also carries a *trap*: a point with an out-of-domain real
@@ -260,6 +265,94 @@ def _same(a, b):
   a, b = np.asarray(a), np.asarray(b)
   return a.shape == b.shape and bool(np.array_equal(a, b, equal_nan=(
       a.dtype.kind == 'f')))
+
+
+def _pv_equal(a, b):
+  if set(a) != set(b):
+    return False
+  for k, x in a.items():
+    y = b[k]
+    if isinstance(x, str) or isinstance(y, str):
+      if x != y:
+        return False
+    elif not math.isclose(float(x), float(y), rel_tol=1e-9, abs_tol=1e-12):
+      return False
+  return True
+
+
+def _members_equal(block, members):
+  """Multiset equality of two lists of parameter dicts."""
+  left = list(members)
+  for a in block:
+    for i, b in enumerate(left):
+      if _pv_equal(a, b):
+        del left[i]
+        break
+    else:
+      return False
+  return not left
+
+
+def _check_trials(out, tag, trials, params, rw, count, par):
+  """best_candidates_to_trials: one block of `par` trials per candidate set.
+
+  Every consecutive block of n_parallel trials must be one returned candidate
+  set (its members = the harness's own decoding of features[ind, :], in any
+  order) and carry that set's reward as acquisition value, both in the final
+  measurement and in the devinfo metadata.  The order of the sets is free.
+  """
+  import json
+  import numpy as np
+  from harness import spaces
+  from vizier.utils import json_utils
+  sets = [(float(rw[i]),
+           [spaces.param_values_to_py(params[i * par + j])
+            for j in range(par)]) for i in range(count)]
+  if par >= 2 and count >= 2:
+    out.cls('trials_clause_parallel_sets')
+    if any(not _members_equal(sets[0][1], m) for _, m in sets[1:]):
+      out.cls('trials_clause_distinct_sets')
+  unused = list(range(count))
+  for b in range(count):
+    block = trials[b * par:(b + 1) * par]
+    acqs = []
+    for tr in block:
+      fm = tr.final_measurement
+      a = fm.metrics['acquisition'].value if fm is not None and (
+          'acquisition' in fm.metrics) else None
+      try:
+        md = float(np.asarray(json.loads(
+            tr.metadata.ns('devinfo')['acquisition_optimization'],
+            cls=json_utils.NumpyDecoder)['acquisition']))
+      except Exception:  # pylint: disable=broad-except
+        md = None
+      if a is None or md is None or not math.isclose(
+          float(a), float(md), rel_tol=1e-6, abs_tol=1e-9):
+        out.violate('decode/trials/acquisition_missing_or_inconsistent',
+                    '%s: block %d measurement=%r metadata=%r' % (tag, b, a, md))
+        return
+      acqs.append(float(a))
+    if any(not math.isclose(a, acqs[0], rel_tol=1e-6, abs_tol=1e-9)
+           for a in acqs):
+      out.violate('decode/trials/acquisition_differs_within_set',
+                  '%s: block %d acquisitions %r' % (tag, b, acqs))
+      return
+    bp = [spaces.param_values_to_py(tr.parameters) for tr in block]
+    same_members = [i for i in unused if _members_equal(bp, sets[i][1])]
+    hit = [i for i in same_members if math.isclose(
+        sets[i][0], acqs[0], rel_tol=1e-6, abs_tol=1e-9)]
+    if hit:
+      unused.remove(hit[0])
+      continue
+    if same_members:
+      out.violate('decode/trials/acquisition_not_reward_of_set',
+                  '%s: block %d acquisition %r, reward of that set %r' % (
+                      tag, b, acqs[0], [sets[i][0] for i in same_members]))
+    else:
+      out.violate('decode/trials/members_not_a_returned_set',
+                  '%s: block %d trials %r are no returned candidate set; '
+                  'sets=%r' % (tag, b, bp, [m for _, m in sets][:4]))
+    return
 
 
 def _sibling_run(out, case, which):
@@ -643,6 +736,7 @@ def check(case, _runs=3):
                       res_other.features.categorical)):
       out.cls('other_seed_other_result')
     # ---- (6) decode
+    params = None
     try:
       params = conv.to_parameters(lib.as_model_input(
           fc.reshape(count * par, ncp)[:, :nc],
@@ -672,6 +766,8 @@ def check(case, _runs=3):
             out.violate('decode/not_member/best_candidates_to_trials',
                         '%s: %s' % (tag, why))
             break
+        if params is not None and len(trials) == count * par == len(params):
+          _check_trials(out, tag, trials, params, rw, count, par)
       except Exception as e:  # pylint: disable=broad-except
         if not any(v['bucket'].startswith(('bounds/', 'padding/'))
                    for v in out.violations):
@@ -724,6 +820,7 @@ def families(tier):
               'score_nan_region', 'score_neginf_region', 'score_plateau',
               'score_posinf_region', 'posinf_evaluated', 'posinf_returned',
               'prior_partial_batch_with_padding', 'sibling_runs',
+              'trials_clause_distinct_sets',
               'target_corner', 'target_interior', 'score_categorical_only',
               'n_parallel_None', 'n_parallel_1', 'n_parallel_2',
               'use_fori_True', 'use_fori_False', 'eagle_mutation_phase',
